@@ -127,7 +127,7 @@ type b1 struct {
 
 // RuleB1: body-coordinates typestate.
 func RuleB1(c *Ctx) {
-	sc := c.Run.Begin("B1", "Coords.Read() and Directive.BodyErrorIndex() are reached only with BodyCoords.IsSet() established for the same directive on every path (through parameters and the userTypes-key invariant)", 2)
+	sc := c.Run.Begin("B1", "Coords.Read() and Directive.BodyErrorIndex() are reached only with BodyCoords.IsSet() established for the same directive on every path (through parameters and the userTypes-key invariant)", 1)
 	defer sc.End()
 	b := &b1{c: c,
 		isSet: c.Func("directive", "Coords.IsSet"), read: c.Func("directive", "Coords.Read"),
